@@ -1,6 +1,7 @@
 """C14 - all input formats describe the same signed group (thin structural clauses)."""
 from ..rules_flow import Flow
 from ..rules_k import K4_codec, K5_graph_form, K13_matrix_form, K15_junk_characters, E2_graph_circuit
+from ..rules_conv import U1_defined_attributes
 
 
 def run(tree, rep, tier):
@@ -11,6 +12,7 @@ def run(tree, rep, tier):
     K13_matrix_form(rep, flow)
     K15_junk_characters(rep, flow)
     E2_graph_circuit(rep, flow)
+    U1_defined_attributes(rep, flow, ['stabilizer', 'graph'])
     rep.trusted += ["Q4"]
     rep.decided += ["Pauli-character and sign tables of parser and printer are mutually inverse; string -> object -> string round-trips (K4, exhaustive over one generator of a 3-qubit list)",
                     "the reversed export is the exact mirror image after the sign (B4)", "the graph form is (I, adjacency, 0), i.e. generators X_v Z_N(v) (K5, all graphs on 2..4 vertices)",
